@@ -1,6 +1,6 @@
 (* C09 — merge loses nothing when inputs agree on names; identity and fold laws. *)
 From Sigtools.Model Require Import Base Bind Roles Algebra Universe.
-From Sigtools.Proofs Require Import SmallModel Basics SweepDefs Bounded MergeNeutral MergeIdem SweepDefs2 SweepDefs3 Bounded3 MergeNeutralL FoldLaw.
+From Sigtools.Proofs Require Import SmallModel Basics SweepDefs Bounded MergeNeutral MergeIdem SweepDefs2 SweepDefs3 Bounded3 MergeNeutralL FoldLaw RcValidN.
 
 (* apply_params(s, *sort_params(s)) equals s, for all valid signatures *)
 Theorem C09_sort_apply_roundtrip s :
@@ -106,4 +106,10 @@ Print Assumptions C09_merge_nested_differs_only_on_value_error.
 Theorem C09_merge_fold_law_unconditional_refuted : exists a b c : sigT, valid_sig (params a) = true /\ valid_sig (params b) = true /\ valid_sig (params c) = true /\ merge_nested [a; b; c] = Err ValueErr /\ merge [a; b; c] <> Err ValueErr.
 Proof. exact @FoldLaw.merge_fold_law_unconditional_refuted. Qed.
 Print Assumptions C09_merge_fold_law_unconditional_refuted.
+
+
+(* ---- nested and flat merge agree for any number of role-consistent valid inputs (whole result) ---- *)
+Theorem C09_merge_nested_eq_rc : forall ss : list sigT, all_valid ss -> role_consistent (map params ss) = true -> merge_nested ss = merge ss.
+Proof. exact @RcValidN.merge_nested_eq_rc. Qed.
+Print Assumptions C09_merge_nested_eq_rc.
 
